@@ -1,10 +1,13 @@
 import CedarVerif.Driver.Ops.Syntax
 import CedarVerif.Driver.Ops.PolicySet
 import CedarVerif.Cedar.Syntax.PolicyParse
+import CedarVerif.Cedar.Syntax.Lex
 /-
 Driver ops of the policy-level syntax model (C05):
   (polprint <body> (tokens …))     → (same) | (diff (tokens …model…))   `printPolicy` vs the given tokens (string tokens by value)
   (polparse "<id>" (tokens …))     → (ok <body>) | (none)               `parsePolicy`
+  (lex "<text>")                   → (tokens …) | (lexerr)              the model lexer `Cedar.Syntax.lex` (numbers by value)
+  (lexpolparse "<id>" "<text>")    → (ok <body>) | (none)               `lex` then `parsePolicy`: text → AST without any harness tokenizer
 `<body>` is the C08 encoding `(body "id" effect (annos …) pc ac rc nonscope|none)` (harness/src/c08.rs `body_sx`).
 Glue code, not subject to theorems.
 -/
@@ -44,6 +47,10 @@ def handleSyntaxPolicy (x : Sexp) : Option String :=
     match decTokens ts with
     | some ts => some (match parsePolicy id ts with | some b => "(ok " ++ encBody b ++ ")" | none => "(none)")
     | none => some "(bad-op)"
+  | .list [.atom "lex", .str text] =>
+    some (match lex text.toList with | some ts => encTokens ts | none => "(lexerr)")
+  | .list [.atom "lexpolparse", .str id, .str text] =>
+    some (match (lex text.toList).bind (parsePolicy id) with | some b => "(ok " ++ encBody b ++ ")" | none => "(none)")
   | _ => none
 
 end CedarVerif.Ops.SynPol
